@@ -20,6 +20,7 @@ TL = "may::timeout_list"
 def check(ctx):
     numrules.duration_rules(ctx)
     shared.park_deadline_sampled_before_arm(ctx)
+    shared.no_panicking_instant_arithmetic(ctx)
     # ---- deadline loops
     now_ge = lambda a: a.kind == "call" and a.truth is True and re.fullmatch(r".*PartialOrd.*::ge|std::cmp::PartialOrd::ge", a.name or "") is not None
     RMU = "may::sync::mpsc::Receiver::recv_max_until"
@@ -180,3 +181,6 @@ def check(ctx):
         ctx.must_follow(TT + "::add_timer", None, ao("take", W), "timer-thread/add-wakes-on-new-head", "an add_timer that created a new earliest expiry wakes the timer thread",
                         rule="R-SLOT", edge=is_recal_true, edge_label="edge `is_recal` is true")
     ctx.must_call(TT + "::del_timer", ao("take", W), "timer-thread/del-always-wakes", "del_timer always wakes the timer thread")
+    # dependency (seed C08-6): an interval list whose push mis-reports `is_head` is never put on the timer heap
+    ctx.import_rules("C19", r"^swap-then-read-tail|^prev-then-publish|^is-head-compares-tail-and-prev")
+    shared.injected_kinds(ctx)
